@@ -103,7 +103,11 @@ class Tokenizer:
                 if tok.is_exact_type(","):
                     comma = True
                     break
+            if end is not None and tok.start[0] > end[0] and not string.endswith("\n"):
+                # a backslash continuation has no token of its own: take it from the rest of the previous token's last line
+                string += last.line.split("\n")[-2 if last.line.endswith("\n") else -1][end[1] :] + "\n"
             end = tok.end
+            last = tok
             if start is None:
                 start = tok.start
                 line = tok.line
